@@ -40,8 +40,8 @@ noncomputable def PF (na nt : List Str) (s₀ : St) (kk : Nat) (e₂ b₁ x₁ y
 
 theorem PF_ok (na nt : List Str) (s₀ : St) (kk : Nat) (e₂ b₁ x₁ y₂ : St) (h1 : s₀.next + kk ≤ b₁.next)
     (h2 : s₀.nodes.size + 1 ≤ b₁.nodes.size) : (PF na nt s₀ kk e₂ b₁ x₁ y₂).Ok :=
-  ⟨rhoOf_injective (swapFrom_injective h1), swapFrom_injective h2, shiftFrom_injective _ _, fun _ => .inl rfl,
-    fun x hx => rhoOf_plain _ hx⟩
+  ⟨rhoOf_injective (swapFrom_injective h1), swapFrom_injective h2, shiftFrom_injective _ _, fun _ _ => .inl rfl,
+    fun x hx => rhoOf_plain _ hx, fun h => Bool.noConfusion h⟩
 
 section
 variable {na nt : List Str} {s₀ : St} {kk : Nat} {e₂ b₁ b₂ x₁ y₂ a₁ a₂ t₂ w₁ : St}
@@ -455,7 +455,56 @@ theorem asimF_glue
   · intro j h; exact absurd trivial h
   · intro i _; rfl
   · intro j _; rfl
+  · intro h; exact Bool.noConfusion h
 
 end
+
+/-! ### the two modes of the final correspondence -/
+
+/-- the final correspondence in mode `m`: `false` — the inserted block and the root are tainted (the
+rows after the block avoid it); `true` — open mode: nothing is tainted (the rows after the block may
+continue from it; its extra child is inert) -/
+noncomputable def PFm (m : Bool) (na nt : List Str) (s₀ : St) (kk : Nat) (e₂ b₁ x₁ y₂ : St) : Params := { PF na nt s₀ kk e₂ b₁ x₁ y₂ with T := fun j => m = false ∧ (j = s₀.groups.size ∨ j = 0), op := m }
+
+theorem PFm_ok (m : Bool) (na nt : List Str) (s₀ : St) (kk : Nat) (e₂ b₁ x₁ y₂ : St) (h1 : s₀.next + kk ≤ b₁.next)
+    (h2 : s₀.nodes.size + 1 ≤ b₁.nodes.size) : (PFm m na nt s₀ kk e₂ b₁ x₁ y₂).Ok := by
+  have ok := PF_ok na nt s₀ kk e₂ b₁ x₁ y₂ h1 h2
+  refine ⟨ok.hρ, ok.hν, ok.hγ, fun _ hm => ⟨hm, .inl rfl⟩, ok.hfix, fun _ => ⟨rfl, fun j e => ?_⟩⟩
+  have e' : shiftFrom (s₀.groups.size + 1) 1 j = s₀.groups.size + 1 := e
+  unfold shiftFrom at e'
+  split at e' <;> omega
+
+theorem asimF_mode (m : Bool) {na nt : List Str} {s₀ : St} {kk : Nat} {e₂ b₁ x₁ y₂ : St}
+    (h : ASim (PF na nt s₀ kk e₂ b₁ x₁ y₂) x₁ y₂)
+    (hin : m = true → Inert (s₀.groups.size + 1) y₂) : ASim (PFm m na nt s₀ kk e₂ b₁ x₁ y₂) x₁ y₂ := by
+  have hsub : ∀ j, (PFm m na nt s₀ kk e₂ b₁ x₁ y₂).T j → (PF na nt s₀ kk e₂ b₁ x₁ y₂).T j := fun j hj => hj.2
+  constructor
+  · exact h.na₁
+  · exact h.na₂
+  · exact h.nt₁
+  · exact h.nt₂
+  · exact h.mono₁
+  · exact h.mono₂
+  · exact h.idsync
+  · exact h.nsync
+  · exact h.gsync
+  · exact h.ndom
+  · intro j hj; exact ⟨(h.gdom j hj).1, fun ht => (h.gdom j hj).2 (hsub j ht)⟩
+  · exact h.bxlt
+  · exact h.bne
+  · exact h.wf
+  · exact h.dex
+  · exact h.nodes
+  · exact h.groups
+  · exact h.closed
+  · intro j g hd ht hg x hx hx'
+    have hm : m = false := hx'.1
+    have ht' : ¬ (PF na nt s₀ kk e₂ b₁ x₁ y₂).T j := fun h' => ht ⟨hm, h'⟩
+    exact h.ra j g hd ht' hg x hx hx'.2
+  · exact h.fr1n
+  · exact h.fr1g
+  · exact h.fr2n
+  · exact h.fr2g
+  · exact hin
 
 end Rpft.Compile
